@@ -48,7 +48,26 @@ MUTANTS = {
         ('emsg-skip-id', 'dashlive/server/events/repeating_event_base.py', "            retval.append(EventMessageBox(**kwargs))\n            event_id += 1", "            retval.append(EventMessageBox(**kwargs))\n            event_id += 2"),
         ('emsg-start-floor', 'dashlive/server/events/repeating_event_base.py', 'seg_end = (seg_end * self.timescale) // representation.timescale', 'seg_end = (seg_end * self.timescale) // representation.timescale + 1'),
     ],
+    'C01': [
+        ('fl-last-off', 'dashlive/mpeg/dash/representation.py', 'last_fragment = self.start_number + int(scale_timedelta(', 'last_fragment = self.start_number + 1 + int(scale_timedelta('),
+        ('fl-first-narrow', 'dashlive/mpeg/dash/representation.py', '            int(self.timescale * timing.timeShiftBufferDepth // self.segment_duration) - 1)', '            int(self.timescale * timing.timeShiftBufferDepth // self.segment_duration) + 1)'),
+        ('snt-no-leeway', 'dashlive/mpeg/dash/representation.py', '        fta = timing.firstAvailableTime - timing.leeway\n', '        fta = timing.firstAvailableTime\n'),
+        ('snt-future-ok', 'dashlive/mpeg/dash/representation.py', '                seg_delta > timing.elapsedTime\n', '                seg_delta > timing.elapsedTime + timing.leeway\n'),
+        ('snt-num-tc', 'dashlive/mpeg/dash/representation.py', 'timecode = int((segment_num - self.start_number) * self.segment_duration)', 'timecode = int(segment_num * self.segment_duration)'),
+        ('msi-range-lt', 'dashlive/server/requesthandler/media_requests.py', '        if seg_num < first or seg_num > last:', '        if seg_num <= first or seg_num > last:'),
+        ('msi-swallow', 'dashlive/server/requesthandler/media_requests.py', "            raise ValueError(\n                f'Segment {seg_num} not found (valid range= {first}->{last})')", "            pass"),
+        ('ts2td-int', 'dashlive/mpeg/dash/representation.py', '        seconds = float(timecode) / float(self.timescale)\n', '        seconds = timecode // self.timescale\n'),
+    ],
+    'C06': [
+        ('seglist-end', 'dashlive/mpeg/dash/representation.py', '            end = seg.pos + seg.size - 1\n', '            end = seg.pos + seg.size\n'),
+        ('seglist-skip-first', 'dashlive/mpeg/dash/representation.py', '                rv.init = sp\n                first = False\n', '                rv.init = sp\n'),
+        ('vod-last', 'dashlive/mpeg/dash/representation.py', 'return (self.start_number, self.num_media_segments + self.start_number - 1)', 'return (self.start_number, self.num_media_segments + self.start_number)'),
+        ('vod-time-round', 'dashlive/mpeg/dash/representation.py', 'st = segment_time + (self.segment_duration >> 2)', 'st = segment_time + (self.segment_duration >> 1)'),
+        ('vod-mod', 'dashlive/mpeg/dash/representation.py', '            mod_segment = 1 + segment_num - self.start_number\n', '            mod_segment = segment_num - self.start_number\n'),
+    ],
     'C02': [
+        ('mdut-order', 'dashlive/mpeg/dash/reference.py', 'return self.media_duration * timescale // self.timescale', 'return self.media_duration // self.timescale * timescale'),
+        ('csft-swap', 'dashlive/mpeg/dash/representation.py', '        return (mod_segment, origin_time, seg_start_tc)', '        return (mod_segment, seg_start_tc, origin_time)'),
         ('gsi-le', 'dashlive/mpeg/dash/representation.py', '.duration // 2)) < timecode:', '.duration // 2)) <= timecode:'),
         ('gsi-no-half', 'dashlive/mpeg/dash/representation.py', 'while (seg_start_tc + (self.segments[mod_segment].duration // 2)) < timecode:', 'while (seg_start_tc + self.segments[mod_segment].duration) < timecode:'),
         ('gsi-wrap', 'dashlive/mpeg/dash/representation.py', '            if mod_segment > self.num_media_segments:\n                mod_segment = 1\n                origin_time += ref_duration_tc', '            if mod_segment >= self.num_media_segments:\n                mod_segment = 1\n                origin_time += ref_duration_tc'),
